@@ -283,6 +283,7 @@ func init() {
 			c := swarmBase(t)
 			if c.Native {
 				c.Work.ExtraHdr = pick(t, "cfg-extra4", 300, 0, 700)
+				c.Work.DelPayload = pick(t, "cfg-delpayload", 0, 250, 600)
 			}
 			c.Padding = t.Choose("cfg-padding", 3) == 2
 			c.CrashRate = pick(t, "cfg-crash4", 0, 0, 10)
@@ -803,6 +804,15 @@ func init() {
 			}
 			w.EmptyVal = pick(t, "cfg-empty12", 0, 0, 40, 120)
 			w.DelRate = pick(t, "cfg-del12", 250, 400)
+			if t.Choose("cfg-sweeper12", 3) == 2 {
+				// tomb sweeper on the shadow DBIs, short retention on the fake clock
+				sw := &c.Sweeper
+				sw.Enabled = true
+				sw.RetentionDays = pick(t, "cfg-retention12", float32(15.0/86400), float32(40.0/86400))
+				sw.FirstInterval, sw.Interval = 4*time.Second, 7*time.Second
+				sw.LockDuration, sw.ReleaseDuration = 50*time.Millisecond, 50*time.Millisecond
+				c.BigDelta = pick(t, "cfg-bigdelta12", 150, 300)
+			}
 			return c
 		},
 		Mons: func(f *Fleet) []Monitor { return []Monitor{&MonC11{}} },
